@@ -366,6 +366,19 @@ def monitor(c, t):
                         f"client-first {cf!r} parses to user {pu!r} nonce {pn!r}, expected {user!r} {cnonce!r}"))
     except srv.ProtocolError as e:
         bad.append(("first_wellformed", f"client-first {cf!r} violates the RFC 5802 grammar: {e}"))
+    # clause 5 (end to end): the connection's SASL loop (AIOKafkaConnection._do_sasl_handshake, both wire
+    # forms) reports a successful login exactly when the SCRAM exchange itself completed
+    step_completed = bool(ev) and ev[-1] == ["Complete"]
+    for hv, e in sorted((t.get("e2e") or {}).items()):
+        if "driver_error" in e or e.get("outcome") == "ServerRejected":
+            continue
+        if e["outcome"] == "Authenticated" and not step_completed:
+            bad.append(("e2e_login", f"the connection (SaslHandshake v{hv}) reports a successful login after "
+                                     f"{e['tokens']} token(s) although the SCRAM exchange did not complete "
+                                     f"(authenticator: {ev[-1] if ev else None})"))
+        elif e["outcome"] != "Authenticated" and step_completed:
+            bad.append(("e2e_login", f"the connection (SaslHandshake v{hv}) failed with {e['outcome']} although the "
+                                     f"SCRAM exchange completes"))
     if "server_first_sent" not in t:
         return bad
     sf = bytes(t["server_first_sent"])
@@ -440,6 +453,9 @@ def evaluate(ck: Check, cases, res, label="cases"):
     nviol = 0
     coq_items, srv_items = [], []
     for idx, (c, t) in enumerate(zip(cases, res)):
+        for hv, e in (t.get("e2e") or {}).items():
+            if "driver_error" in e:
+                ck.obligation(f"correspondence:e2e-driver:v{hv}", False, e["driver_error"])
         if "driver_error" in t:
             ck.obligation("correspondence:driver", False, t["driver_error"])
             continue
@@ -548,6 +564,9 @@ def run(ck: Check):
         "UTF-8 is prefix-free); int() is modelled for ASCII text only (Unicode digits/spaces in the i attribute are "
         "outside the model and not generated)",
         "cryptographic strength of HMAC/PBKDF2 (a server ignorant of the password cannot produce v) is NOT claimed",
+        "the SASL loop of AIOKafkaConnection._do_sasl_handshake is not modelled: every exchange is run a second and "
+        "third time through it (SaslAuthenticate requests and raw tokens; transport replaced by the RFC server) and "
+        "its verdict must equal the authenticator's (monitor clause e2e_login)",
     ]
     ck.cov["rule"] = ("one evaluation = one complete exchange of the real ScramAuthenticator with the RFC 5802 "
                       "server (messages possibly tampered with), compared with the Coq model; non-trivial = "
